@@ -127,3 +127,21 @@ mut("c20-shape-compare", "C20", "_base_stepper.py", "        if u.shape != expec
 mut("c20-poisson", "C20", "_poisson.py", "if f.shape[1:] != spatial_shape(self.num_spatial_dims, self.num_points):", "if f.shape[-1] != self.num_points:", "only the last axis is compared")
 mut("c20-override", "C20", "stepper/_burgers.py", "class Burgers(BaseStepper):\n", "class Burgers(BaseStepper):\n    def __call__(self, u):\n        return self.step(u)\n\n", "unguarded __call__ override")
 ben("c20-guard-not", "C20", "_base_stepper.py", "        if u.shape != expected_shape:", "        if not (u.shape == expected_shape):", "equivalent guard")
+
+# ------------------------------------------------------------------------------------------ more benign refactors
+ben("c04-math-pi", "C04", "_spectral.py", ("from itertools import product\n", "scale = 2 * jnp.pi / domain_extent"), ("import math\nfrom itertools import product\n", "scale = math.pi * 2 / domain_extent"), "math.pi instead of jnp.pi")
+ben("c01-math-pi", "C01", "_spectral.py", ("from itertools import product\n", "scale = 2 * jnp.pi / domain_extent"), ("import math\nfrom itertools import product\n", "scale = math.pi * 2 / domain_extent"), "math.pi instead of jnp.pi")
+ben("c05-guard-not", "C05", "_spectral.py", "    if order % 2 != 0:\n        raise ValueError(\"Order must be even.\")", "    if not (order % 2 == 0):\n        raise ValueError(\"Order must be even.\")", "guard spelled differently")
+ben("c10-leray-inline", "C10", "nonlin_fun/_leray.py", "        return u_hat + grad_pressure_hat", "        return u_hat - self.derivative_operator * (self.inv_laplacian * div_u_hat)", "inlined with the sign moved")
+ben("c03-leray-inline", "C03", "nonlin_fun/_leray.py", "        return u_hat + grad_pressure_hat", "        return u_hat - self.derivative_operator * (self.inv_laplacian * div_u_hat)", "inlined with the sign moved")
+ben("c17-half", "C17", "_spectral.py", ("lower_limit = k - dk / 2", "upper_limit = k + dk / 2"), ("lower_limit = k - 0.5 * dk", "upper_limit = 0.5 * dk + k"), "0.5 * dk instead of dk / 2")
+ben("c16-scale", "C16", "metrics/_spatial.py", "scale = (domain_extent / num_points) ** num_spatial_dims", "scale = domain_extent**num_spatial_dims / num_points**num_spatial_dims", "power distributed")
+ben("c13-normalize-rewrite", "C13", "stepper/generic/_utils.py", "c * dt / (domain_extent**i) for i, c in enumerate(coefficients)", "dt * c * domain_extent ** (-i) for i, c in enumerate(coefficients)", "negative exponent")
+ben("c15-min-ifexp", "C15", "_interpolation.py", "        min(old_num_points, new_num_points),", "        (old_num_points if old_num_points < new_num_points else new_num_points),", "min spelled as a conditional expression")
+ben("c03-helper-method", "C03", "nonlin_fun/_gradient_norm.py", "        u_gradient_norm_squared_hat = 0.5 * self.fft(u_gradient_norm_squared)\n\n        # Requires minus to move term to the rhs\n        return -self.scale * u_gradient_norm_squared_hat", "        return self._finish(u_gradient_norm_squared)\n\n    def _finish(self, g):\n        g_hat = self.fft(g)\n        return g_hat * (-self.scale / 2)", "tail extracted into a helper method")
+ben("c09-helper-method", "C09", "nonlin_fun/_gradient_norm.py", "        u_gradient_norm_squared_hat = 0.5 * self.fft(u_gradient_norm_squared)\n\n        # Requires minus to move term to the rhs\n        return -self.scale * u_gradient_norm_squared_hat", "        return self._finish(u_gradient_norm_squared)\n\n    def _finish(self, g):\n        g_hat = self.fft(g)\n        return g_hat * (-self.scale / 2)", "tail extracted into a helper method")
+ben("c12-forced-temp", "C12", "_forced_stepper.py", "        u_with_force = u + self.stepper.dt * f\n        return self.stepper.step(u_with_force)", "        inner = self.stepper\n        return inner.step(f * inner.dt + u)", "temporary, commuted")
+ben("c14-rollout-rename", "C14", "_utils.py", "            u_next = stepper_fn(u)\n            return u_next, u_next", "            new_state = stepper_fn(u)\n            return (new_state, new_state)", "renamed local", count=1)
+ben("c02-property", "C02", "etdrk/_etdrk_1.py", ("        return self._exp_term * u_hat + self._coef_1 * self._nonlinear_fun(u_hat)", ), ("        return self.propagator * u_hat + self._coef_1 * self._nonlinear_fun(u_hat)\n\n    @property\n    def propagator(self):\n        return self._exp_term", ), "field read through a property")
+ben("c20-call-guard-helper", "C20", "_base_stepper.py", "        if u.shape != expected_shape:\n            raise ValueError(", "        self._check(u, expected_shape)\n        return self.step(u)\n\n    def _check(self, u, expected_shape):\n        if u.shape != expected_shape:\n            raise ValueError(", "guard moved into a helper called unconditionally")
+ben("c06-try", "C06", "_base_stepper.py", "        self.dx = domain_extent / num_points\n", "        try:\n            self.dx = domain_extent / num_points\n        except ZeroDivisionError:\n            raise ValueError(\"num_points must be positive\")\n", "try/except around a static computation")
